@@ -347,8 +347,19 @@ func init() {
 				bg := &xGen{t: t, fns: append([]string{}, xScalar...), inBody: true}
 				var file strings.Builder
 				nDefs := 1 + t.W(3)
+				redefAt := -1
+				if nDefs >= 2 && t.WBool(1, 4) {
+					// one more definition that re-defines the first function in the middle of the file: definitions written before
+					// it keep calling the old one, later ones (and the template) get the new one
+					nDefs++
+					redefAt = 1 + t.W(nDefs-2)
+				}
+				firstName := ""
 				for i := 0; i < nDefs; i++ {
 					name := fmt.Sprintf("uf%d", i+1)
+					if i == redefAt {
+						name = firstName
+					}
 					if i == 0 && t.WBool(1, 5) {
 						// a user function may carry the name of a builtin (one the generated bodies never call): it takes its place
 						name = []string{"hf", "tab", "basename", "percent", "repeat"}[t.W(5)]
@@ -357,9 +368,22 @@ func init() {
 					if body.Kind == xLit && body.S == "" {
 						body = &xNode{Kind: xGroup, N: 0}
 					}
-					defs[name] = body
-					fnNames = append(fnNames, name)
-					bg.fns = append(bg.fns, name) // later definitions may call earlier ones
+					if redefAt >= 0 && i > 0 && i != redefAt && (i == redefAt-1 || i == nDefs-1) && t.WBool(2, 3) {
+						// the same argument text `{first {0}}` in a definition before and in one after the re-definition
+						body = &xNode{Kind: xCall, S: []string{"upper", "lower", "len", "prefix"}[t.W(4)], Args: []*xNode{{Kind: xCall, S: firstName, Args: []*xNode{{Kind: xGroup, N: 0}}}}}
+						if body.S == "prefix" {
+							body.Args = append(body.Args, &xNode{Kind: xLit, S: "G"})
+						}
+					}
+					if i == 0 {
+						firstName = name
+					}
+					// bound at definition time: calls to earlier definitions are resolved now
+					defs[name] = xInline(body, defs)
+					if i != redefAt {
+						fnNames = append(fnNames, name)
+						bg.fns = append(bg.fns, name) // later definitions may call earlier ones
+					}
 					text := name + " " + body.top()
 					if t.WBool(1, 3) {
 						file.WriteString("# a comment line\n")
@@ -419,8 +443,8 @@ func init() {
 				if lerr != nil {
 					continue // a body that does not compile (arity): not this world's subject
 				}
-				if len(loaded) != nDefs {
-					rc.Violate("funcs-file-definition-lost", "the funcs file defines %d functions without an error, but %d were loaded:\n%q", nDefs, len(loaded), funcsText)
+				if len(loaded) != len(fnNames) {
+					rc.Violate("funcs-file-definition-lost", "the funcs file defines %d functions without an error, but %d were loaded:\n%q", len(fnNames), len(loaded), funcsText)
 					return
 				}
 				funclib.AddFunctions(loaded)
